@@ -84,6 +84,8 @@ def run_all(obls, jobs=None):
     for i, status, backend, detail, model, dt in results:
         o = todo[i]
         o.status, o.backend, o.detail, o.model, o.time_s = status, backend, detail, model, dt
+        if isinstance(detail, dict) and "coverage" in detail:     # bounded stand-ins report their coverage through the worker
+            o.meta["coverage"] = detail["coverage"]
     _POOL_OBLS = []
     return obls
 
